@@ -2171,6 +2171,11 @@ func (d *Data) updateMaxLabel(v dvid.VersionID, label uint64) (changed bool, err
 	d.mlMu.Lock()
 	defer d.mlMu.Unlock()
 
+	// another writer may have raised the maximum since the check under the read lock
+	if curMax, found := d.MaxLabel[v]; found && curMax >= label {
+		changed = false
+		return
+	}
 	d.MaxLabel[v] = label
 	if err = d.persistMaxLabel(v); err != nil {
 		err = fmt.Errorf("updateMaxLabel of data %q: %v", d.DataName(), err)
@@ -2203,9 +2208,12 @@ func (d *Data) updateBlockMaxLabel(v dvid.VersionID, block *labels.Block) {
 	}
 	if changed {
 		d.mlMu.Lock()
-		d.MaxLabel[v] = curMax
-		if err := d.persistMaxLabel(v); err != nil {
-			dvid.Errorf("updateBlockMaxLabel of data %q: %v\n", d.DataName(), err)
+		// another block's goroutine may have raised the maximum since the read above
+		if stored, found := d.MaxLabel[v]; !found || stored < curMax {
+			d.MaxLabel[v] = curMax
+			if err := d.persistMaxLabel(v); err != nil {
+				dvid.Errorf("updateBlockMaxLabel of data %q: %v\n", d.DataName(), err)
+			}
 		}
 		if curMax > d.MaxRepoLabel {
 			d.MaxRepoLabel = curMax
